@@ -102,6 +102,8 @@ func c14BidiClients() []c14Client {
 		mk("S CR Rall R R CP"), mk("Sbig Sbig CR Rall CP"), mk("Sbad CR Rall CP"), mk("S Sbad CR Rall CP"),
 		mk("S X Rall CR CP"), mk("S R X R CR CP"), mk("S CR X CP"), mk("X S CR Rall CP"), mk("Sbad X CR CP"), mk("S X CP"),
 		mk("S WH Sfill R R CR CP"), mk("WH Sfill Rall CR CP"), mk("S WH Sfill CR Rall CP"),
+		// the client learns about the end of the stream from Receive first and sends afterwards
+		mk("S Rall Sfill CR CP"), mk("S R Rall S Sfill R CR CP"),
 	}
 }
 
@@ -166,6 +168,18 @@ func c14Compatible(cl c14Client, h c14Handler) bool {
 		}
 		if h.oneRecv && firstS < 0 {
 			return false
+		}
+	}
+	for i, o := range cl.ops {
+		if o == "Rall" && (firstCR < 0 || i < firstCR) && (firstX < 0 || i < firstX) {
+			// receiving everything before closing the request: the handler must
+			// be able to finish without seeing the end of the request
+			if h.drains || h.waits || h.name == "send3-then-drain-ok" {
+				return false
+			}
+			if h.oneRecv && firstS < 0 {
+				return false
+			}
 		}
 	}
 	if firstR >= 0 && firstX > firstR && h.waits && h.sends == 0 {
